@@ -49,6 +49,15 @@ func judgeC01(c SyncCase) (string, string, *SyncObs) {
 		return "transfer-failed", fmt.Sprintf("send=%v recv=%v", o.Res.SendErr, o.Res.RecvErr), o
 	}
 	want := sourceView(o.View)
+	if c.MemResize != 0 {
+		// the source's files are not the size their stat announces (grown since the listing; a file system that reports
+		// no sizes): what is stored is what the source delivered
+		for i := range want {
+			if want[i].Kind == fsmodel.File && want[i].HL == 0 {
+				want[i].Data = ResizeBytes(want[i].Data, c.MemResize)
+			}
+		}
+	}
 	if c.Merge {
 		want = overlay(o.Before, want)
 	}
@@ -210,6 +219,18 @@ func c01Cases(tier string) []SyncCase {
 			for _, mem := range []bool{false, true} {
 				cases = append(cases, SyncCase{Src: mkK(ls), Dst: nil, Mem: mem}, SyncCase{Src: mkK(ls), Dst: mkK(ls), Mem: mem}, SyncCase{Src: mkK(ls), Dst: mkK(parts[0]), Mem: mem})
 			}
+		}
+	}
+	// sources whose files deliver more bytes than their stat announces - in particular files announced as empty
+	{
+		T := fsmodel.T0
+		f := func(p string, seed, size int) fsmodel.Node {
+			return fsmodel.Node{Path: p, Kind: fsmodel.File, Perm: 0644, Mtime: T + int64(seed), Data: fsmodel.Content(seed, size)}
+		}
+		grow := fsmodel.Tree{f("empty", 1, 0), f("five", 2, 5), {Path: "d", Kind: fsmodel.Dir, Perm: 0755, Mtime: T + 3}, f("d/empty2", 4, 0), f("d/chunk", 5, 32768), f("z", 6, 40000)}
+		grow.Sort()
+		for _, delta := range []int{5, 18, 49152} {
+			cases = append(cases, SyncCase{Src: grow, Dst: nil, Mem: true, MemResize: delta}, SyncCase{Src: grow, Dst: nil, Mem: true, MemResize: delta, Notify: true, Merge: true})
 		}
 	}
 	// names from another era: not valid UTF-8 (latin-1, shift-jis), at the length limit, beginning with two dots, with
